@@ -101,6 +101,9 @@ def events_for(pp, rnd, A, tag):
         kw.update(op=op, tid=f"{tag}.{op}.{len(evs)}", k="c20", A=A)
         evs.append(kw)
 
+    if len(text) % 2:
+        # a string is immutable: adding something to the SAME text first must not matter for what follows
+        call(lambda: pp.add_mods(text, {"nterm": [Mod("EDIT", 1)], 0: [Mod("EDIT", 1)]}))
     o, r = call(lambda: pp.add_mods(pp.strip_mods(text), pp.get_mods(text)))
     add("moddict", out=o, res=r if o == "ret" else "")
     a = anngen.build(pp, A)
